@@ -16,10 +16,11 @@ sub-expressions (//, %, comparisons, np.arange) stay in Z (Python floor division
 for every sign)."""
 import ast
 import calendar
+import re
 import time
 from fractions import Fraction
 
-from vh.translate import TranslateError, _parse, _class, _func, coq_string, coq_Z
+from vh.translate import TranslateError, _parse, _class, _func, coq_string, coq_Z, parse_template
 
 OPS = '{A : Type} (o_add o_sub o_mul o_div : A -> A -> A) (o_ofZ : Z -> A)'
 
@@ -162,8 +163,23 @@ def item_fix_rule(repo, out):
             or [a.arg for a in bef[0].args.args] != ['date'] or bef[0].args.defaults or bef[0].decorator_list:
         raise TranslateError('visdatav4: _before helper not of the expected shape')
     src = _u(bef[0].body[0].value)
-    if src != 'capture_start<katpoint.Timestamp(date).secs':
+    # the date is read as UTC by katdal itself (strptime + timegm): katpoint.Timestamp(<string>) goes through mktime and
+    # time.timezone of the PROCESS (finding C17-F2); any other reading of the date is refused
+    want = _u(parse_template("capture_start < calendar.timegm(time.strptime(date, '%Y-%m-%d'))", 'eval').body)
+    if src != want:
         raise TranslateError('visdatav4: _before is %s' % src)
+    fmt = bef[0].body[0].value.comparators[0].args[0].args[1].value
+    mod = _parse(repo, 'katdal/visdatav4.py')
+    for name in ('calendar', 'time'):
+        imps = [n for n in mod.body if isinstance(n, ast.Import) and any(a.name == name and a.asname is None for a in n.names)]
+        if len(imps) != 1:
+            raise TranslateError('visdatav4: module %s is not imported plainly, once' % name)
+        for n in ast.walk(mod):
+            if (isinstance(n, ast.Name) and n.id == name and not isinstance(n.ctx, ast.Load)) \
+                    or (isinstance(n, ast.arg) and n.arg == name) \
+                    or (isinstance(n, (ast.FunctionDef, ast.ClassDef)) and n.name == name) \
+                    or (isinstance(n, ast.alias) and (n.asname or n.name).split('.')[0] == name and n not in imps[0].names):
+                raise TranslateError('visdatav4: the name %s is rebound' % name)
     markers = {}
     rule = None
     for n in ast.walk(init):
@@ -197,6 +213,11 @@ def item_fix_rule(repo, out):
         raise TranslateError('visdatav4: fix rule / markers not found')
     out.append('Definition fix_rule (before : Z -> bool) (cmc2 cbf4k : bool) : bool :=\n  %s.' % rule)
     out.append('Definition fix_dates : list Z := [%s].' % '; '.join(coq_Z(s) for _, s in dates))
+    for txt, _ in dates:
+        if not re.fullmatch(r'[0-9]{4}-[0-9]{2}-[0-9]{2}', txt):
+            raise TranslateError('fix rule: date %r is not written as YYYY-MM-DD with all digits' % txt)
+    out.append('Definition fix_date_texts : list string := [%s].' % '; '.join(coq_string(t) for t, _ in dates))
+    out.append('Definition fix_date_format : string := %s.' % coq_string(fmt))
     out.append('Definition fix_cmc2_marker : string := %s.' % coq_string(markers['cmc2'][0]))
     out.append('Definition fix_cbf4k_marker : string := %s.' % coq_string(markers['cbf4k'][0]))
     out.append('Definition fix_cmc2_attr : string := %s.' % coq_string(markers['cmc2'][1]))
@@ -991,5 +1012,61 @@ def item_cbf_attrs(repo, out):
     out.append('Definition gen_cbf_lite_exceptions : list string := [%s].' % '; '.join(coq_string(e) for e in sorted(excs)))
 
 
+# --------------------------------------------------------------------------- sensors under a preselection
+
+def item_v4_sensors(repo, out):
+    """Numeric sensors of a preselected data set: the sensor histories come from telstate over the WHOLE capture
+    (get_range(name, st=<const>), no end time, nothing of the preselection reaches the getters) and are interpolated onto
+    source.timestamps as VisibilityDataV4.__init__ left them (after time_offset and the CBF workaround)."""
+    init = _v4_init(repo)
+    caches = [(i, n) for i, n in enumerate(init.body) if isinstance(n, ast.Assign) and _u(n.targets[0]) == 'self.sensor']
+    if len(caches) != 1 or len(caches[0][1].targets) != 1 or not isinstance(caches[0][1].value, ast.Call) \
+            or _u(caches[0][1].value.func) != 'SensorCache':
+        raise TranslateError('visdatav4: self.sensor = SensorCache(...) not found exactly once at the top of __init__')
+    pos, call = caches[0][0], caches[0][1].value
+    if any(_u(t) == 'self.sensor' for n in ast.walk(init) if isinstance(n, (ast.Assign, ast.AugAssign))
+           for t in (n.targets if isinstance(n, ast.Assign) else [n.target]) if n is not caches[0][1]):
+        raise TranslateError('visdatav4: self.sensor stored more than once')
+    args = [_u(a) for a in call.args]
+    if len(args) < 4 or any(k.arg in ('cache', 'timestamps', 'dump_period', 'keep') for k in call.keywords):
+        raise TranslateError('visdatav4: SensorCache arguments are %s' % args)
+    # every store into the time axis happens BEFORE the cache is built
+    for i, n in enumerate(init.body):
+        for m, names in _stores(n) if not isinstance(n, (ast.FunctionDef,)) else []:
+            if any(x in ('source.timestamps', 'self.dump_period', 'self._time_keep', 'num_dumps') for x in names) \
+                    and i >= pos:
+                raise TranslateError('visdatav4: %s written after the sensor cache is built' % _u(m)[:60])
+    tk = [_u(n.value) for n in ast.walk(init) if isinstance(n, ast.Assign) and _u(n.targets[0]) == 'self._time_keep']
+    nd = [_u(n.value) for n in ast.walk(init) if isinstance(n, ast.Assign) and _u(n.targets[0]) == 'num_dumps']
+    if tk != ['np.full(num_dumps,True,dtype=bool)'] or nd != ['len(source.timestamps)']:
+        raise TranslateError('visdatav4: _time_keep / num_dumps are %s / %s' % (tk, nd))
+    # TelstateSensorGetter.get: the whole history
+    rel = 'katdal/sensordata.py'
+    get = _func(_class(_parse(repo, rel), 'TelstateSensorGetter', rel), 'get', rel)
+    rng = [n for n in ast.walk(get) if isinstance(n, ast.Call) and isinstance(n.func, ast.Attribute)
+           and n.func.attr in ('get_range', 'get')]
+    if len(rng) != 1 or _u(rng[0].func) != 'self._telstate.get_range' or [_u(a) for a in rng[0].args] != ['self.name'] \
+            or [k.arg for k in rng[0].keywords] != ['st'] or not isinstance(rng[0].keywords[0].value, ast.Constant) \
+            or type(rng[0].keywords[0].value.value) is not int:
+        raise TranslateError('sensordata: TelstateSensorGetter.get reads %s' % [_u(n) for n in rng])
+    if _u(get.body[0]) != 'values,times=zip(*self._telstate.get_range(self.name,st=%d))' % rng[0].keywords[0].value.value:
+        raise TranslateError('sensordata: TelstateSensorGetter.get starts with %s' % _u(get.body[0])[:80])
+    # TelstateDataSource.__init__: the getters are built from (root, key) alone; `preselect` is read by the validation,
+    # the chunk-store index and the timestamps only
+    ds = _ds_init(repo)
+    users = [i for i, n in enumerate(ds.body) if any(isinstance(m, ast.Name) and m.id == 'preselect' for m in ast.walk(n))]
+    texts = [_u(ds.body[i])[:40] for i in users]
+    if len(users) != 5 or users[:3] != [0, 1, 3] or not texts[3].startswith('ifchunk_storeisNone:') \
+            or _u(ds.body[users[4]]) != "if'dumps'inpreselect:\ntimestamps=timestamps[preselect['dumps']]":
+        raise TranslateError('datasources: preselect is used by %s' % texts)
+    getters = [_u(n) for n in ast.walk(ds) if isinstance(n, ast.Call) and _u(n.func) == 'TelstateSensorGetter']
+    if getters != ['TelstateSensorGetter(root,key)']:
+        raise TranslateError('datasources: sensor getters are %s' % getters)
+    if 'metadata=AttrsSensors(telstate,sensors)' not in [_u(n) for n in ds.body]:
+        raise TranslateError('datasources: metadata = AttrsSensors(telstate, sensors) not found')
+    out.append('Definition gen_v4_sensor_cache_args : list string := [%s].' % '; '.join(coq_string(a) for a in args[:4]))
+    out.append('Definition gen_sensor_range_start : Z := %s.' % coq_Z(rng[0].keywords[0].value.value))
+
+
 ITEMS = [item_fix_rule, item_v4_time, item_ds_time, item_preselect, item_spw, item_v4_freq, item_ds_index, item_open,
-         item_cbf_attrs]
+         item_cbf_attrs, item_v4_sensors]
